@@ -151,7 +151,7 @@ func runProps(ids []string, tier string) int {
 				if rule.Ctrl {
 					r.ExpectControl(rule.ID)
 				}
-				rule.Run(c, r)
+				rule.run(c, r)
 			}
 		}()
 		extra := map[string]any{}
